@@ -44,6 +44,13 @@ SnapOK(snap, tbl, cch) ==
          s.c \in DOMAIN cch =>
            {<<TermOf(s.ci[j][1], tbl), s.ci[j][2]>> : j \in 1..Len(s.ci)} = cch[s.c].ci
 
+\* the anonymous origin IDs a client's state knows (the keys of originIndices) are the model's: in particular a call that
+\* is turned down - or a VerifyRequest, which has no business with the maps - adds none
+SnapOriginsOK(snap, cch) ==
+  \A i \in 1..Len(snap) :
+    LET s == snap[i] IN
+      s.c \in DOMAIN cch => {s.oi[j][1] : j \in 1..Len(s.oi)} = {p[1] : p \in cch[s.c].oi}
+
 Obl(e) ==
   CASE e.op = "ANew" -> <<>>
     [] e.op = "VerifyRequest" -> <<
@@ -66,7 +73,8 @@ Obl(e) ==
     [] e.op = "Issuance" -> << <<"beyond:honest-issuance-completes", e.ok>> >>   \* (property C01; here an observation)
     [] e.op = "Retained" -> << <<"returned-ids-keep-their-value", e.unchanged>> >>
     [] e.op = "Snapshot" -> <<
-         <<"client-indices-match-model", SnapOK(e.snap, intern, cache)>> >>
+         <<"client-indices-match-model", SnapOK(e.snap, intern, cache)>>,
+         <<"known-origins-match-model", SnapOriginsOK(e.snap, cache)>> >>
     [] OTHER -> << <<"unknown-event", FALSE>> >>
 
 Failed(e) == LET o == Obl(e) IN {o[i][1] : i \in {j \in 1..Len(o) : o[j][1] \in Enforce /\ ~o[j][2]}}
